@@ -348,6 +348,10 @@ def run(cx):
     inst_handshake_limits(cx, "C06.e")
     inst_growth(cx, "C06.f")
     inst_sender_alloc_pair(cx, "C06.g")
+    # the reply to a sync frame tells the sender how far the receiver's packet window has moved: with the two bases
+    # swapped the sender releases packets the receiver still holds and sends more than the receiver reserved
+    from props.shared import emitter_wiring
+    emitter_wiring(cx, "C06.o")
     # a stored packet that can never be delivered (impossible parent leads) is released from the counter
     # when the window passes it but stays held in the delivery entries: the datagram validator's clauses
     from props.C03 import check_validators
